@@ -465,9 +465,22 @@ _NEG = {ast.Lt: ast.GtE, ast.Gt: ast.LtE, ast.LtE: ast.Gt, ast.GtE: ast.Lt, ast.
 _SYM = {ast.Lt: "<", ast.Gt: ">", ast.LtE: "<=", ast.GtE: ">=", ast.Eq: "==", ast.NotEq: "!=", ast.Is: "is", ast.IsNot: "is not", ast.In: "in", ast.NotIn: "not in"}
 
 
+class _Walrus(ast.NodeTransformer):
+    def visit_NamedExpr(self, n):
+        return ast.copy_location(ast.Name(id=n.target.id, ctx=ast.Load()), n)
+
+
+def _strip_walrus(test):
+    """`(x := e) is not None` is a statement about x once it is bound: atoms name the target"""
+    if any(isinstance(x, ast.NamedExpr) for x in ast.walk(test)):
+        return _Walrus().visit(clone(test))
+    return test
+
+
 def flatten_cond(test: ast.expr, pol: bool) -> list[tuple[str, bool]]:
     """split a test under a polarity into atoms (text, polarity); text is normalised so that
     a > b, b < a, not a <= b  all become ('a > b', True)."""
+    test = _strip_walrus(test)
     if isinstance(test, ast.UnaryOp) and isinstance(test.op, ast.Not):
         return flatten_cond(test.operand, not pol)
     if isinstance(test, ast.Constant) and bool(test.value) == pol:
@@ -546,6 +559,7 @@ def cmp_atom(left, op, right, pol=True, expand: Optional[Callable] = None) -> tu
 def atoms_of(test: ast.expr, pol: bool = True, expand=None) -> list[tuple[str, bool]]:
     if expand is None:
         return flatten_cond(test, pol)
+    test = _strip_walrus(test)
     out = []
 
     def rec(t, p):
